@@ -1360,9 +1360,25 @@ func init() {
 				probe.Bl = "1"
 				probe.Body = gen.Field(strings.Repeat("A", 1+c.r.Intn(58)))
 			}
+			listRule := c.r.Chance(0.15)
+			if listRule {
+				// an operator whose argument is one macro: the list it compares against is the transaction's own
+				// (set from a request argument), never the one an earlier transaction expanded
+				probe.Rules = append(probe.Rules,
+					eRule{ID: 25, Ph: 1, Mk: "-", Rt: "-", Sa: "-", Sev: -1, Tags: []string{}, Log: false, Audit: false,
+						Links: []eLink{{Tg: []eTarget{}, Tfs: []string{}, NA: []eNAct{{N: "setvar", K: gen.Field("lst"), V: gen.Field("%{args_get.m}")}}}}},
+					eRule{ID: 26, Ph: 1 + c.r.Intn(2), Mk: "-", Rt: "-", Sa: "-", Sev: -1, Tags: []string{}, Log: true, Audit: true,
+						Links: []eLink{{Tg: []eTarget{{V: "ARGS_GET", K: gen.Field("q"), X: []string{}}}, Op: &eOp{N: c.r.Pick("within", "within", "streq", "contains", "beginsWith"),
+							A: gen.Field("%{tx.lst}")}, Tfs: []string{}, NA: []eNAct{}}}})
+				probe.Get = append(probe.Get, [2]string{gen.Field("m"), gen.Field(c.r.Pick("ab xy", "xy", "ab"))}, [2]string{gen.Field("q"), gen.Field(c.r.Pick("ab", "xy", "ab xy"))})
+				c.stats.Hit("macro-list-operator")
+			}
 			pred := *probe
 			other := genEngCase(c.r, p)
 			pred.Get, pred.Post, pred.Hdr, pred.Calls = other.Get, other.Post, other.Hdr, other.Calls
+			if listRule {
+				pred.Get = append(pred.Get, [2]string{gen.Field("m"), gen.Field(c.r.Pick("zz", "ab xy", "q"))}, [2]string{gen.Field("q"), gen.Field(c.r.Pick("ab", "zz"))})
+			}
 			if probe.Bl != "" {
 				pred.Body = gen.Field(strings.Repeat("B", 1+c.r.Intn(58)))
 				c.stats.Hit("bodies")
